@@ -16,7 +16,7 @@ use crate::operator::{
     IntoOpResult, OpError, OpRunContext, Operator, OutputList, OutputType, OutputTypeList,
     OutputTypesContext, check_eq, static_dims,
 };
-use crate::ops::Padding;
+use crate::ops::{Padding, conv_attrs_or_defaults};
 use crate::ops::matmul::{OutputScale, cast_scale, shift_cast_gemm_lhs_to_u8, zero_point_to_vec};
 use crate::ops::pooling::{RoundMode, calc_output_size_and_padding};
 use crate::shift_cast::ShiftCast;
@@ -137,6 +137,10 @@ where
     DepthwiseConvExecutor<X, W, Y>: Default,
     GemmExecutor<W, X, Y>: Default,
 {
+    let (strides, dilations, padding) =
+        conv_attrs_or_defaults(kernel.ndim().saturating_sub(2), strides, dilations, padding);
+    let (strides, dilations) = (strides.as_slice(), dilations.as_slice());
+
     // Handle 1D convolution by expanding to 2D and then removing the extra
     // dimension from the result.
     if let &[_n, _c, _w] = input.shape() {
